@@ -189,7 +189,8 @@ def _work(item):
     elif o == "CallOperationError":
         out.append(({"kind": "rejected_only_at_run_time", "corruption": what, "fn": fn}, {**rec, "message": r.get("message")}))
     elif o == "SyntaxError" and r.get("quotes_foreign_text"):
-        out.append(({"kind": "syntax_error_about_text_the_caller_did_not_write", "has_brace": any("{" in q for q in r["quoted"])},
+        out.append(({"kind": "syntax_error_about_text_the_caller_did_not_write", "has_brace": any("{" in q for q in r["quoted"]),
+                     "nested_dots": any("......" in q for q in r["quoted"]) and not any("{" in q for q in r["quoted"])},
                     {**rec, "quoted": r["quoted"], "message": r.get("message")}))
     elif o not in ALLOWED:
         out.append(({"kind": "undocumented_error_class", "exc": o}, {**rec, "message": r.get("message")}))
@@ -225,7 +226,8 @@ def run(ctx):
             items.append(("random_string", c.op, s, [np.array(a) for a in c.arrays], dict(c.size_kwargs(), **c.extra_kwargs), False, None))
     # descriptions whose derived (elementary-operation) text differs from what the caller wrote
     for fn, d, sh in [("sum", "[a b]...", (2, 3, 2, 3)), ("sum", "c [a b]... -> c", (2, 2, 3)), ("softmax", "[a b]...", (2, 3)), ("get_at", "[a b]..., i [2] -> i", None),
-                      ("sum", "a [b]...", (2, 3, 4)), ("max", "[(a b)]...", (6, 6)), ("flip", "a [b c]...", (2, 3, 4))]:
+                      ("sum", "a [b]...", (2, 3, 4)), ("max", "[(a b)]...", (6, 6)), ("flip", "a [b c]...", (2, 3, 4)),
+                      ("sum", "[b...]...", (2, 3)), ("sum", "a [[b...]...]", (4, 2, 3)), ("softmax", "[b...]... c", (2, 3, 4))]:
         arrs = [np.zeros(sh)] if sh else [np.zeros((2, 3)), np.zeros((4, 2), dtype=np.int64)]
         items.append(("derived_text", fn, d, arrs, {}, False, None))
     for _ in range(6 if ctx.tier == "quick" else 200):
